@@ -324,3 +324,39 @@ pub fn run_c06(ctx: &Ctx) {
 pub fn replay_c06(ctx: &Ctx, v: &Value) -> i32 {
     ctx.replay::<crate::l3::Case>(v, |c| crate::l3::run_case(c, crate::l3::Prop::C06))
 }
+
+// ---- C09 / C10: actix-rt under real threads ----------------------------------------------------
+
+pub fn run_c09(ctx: &Ctx) {
+    use crate::rt;
+    ctx.assume("thread interleavings are sampled by the OS scheduler and only perturbed by generated jitter; hangs are judged by a 10 s watchdog (typical latencies are below 5 ms); a second stop issued by another thread may legitimately win");
+    ctx.run_corpus::<rt::C09Case>("threads", rt::check_c09);
+    ctx.run_random(
+        Part::new("threads", "(0..3 arbiters each stopped-and-joined early / detached / idle / busy yielding / busy blocking / dead-but-still-registered (stopped with a slowly dropping task queued behind the stop), stop issued from the system thread before run, a system task, an arbiter task or a foreign thread, exit codes incl. 0 and i32::MIN, optional second stop sequenced by the same thread or racing from another, run() or run_with_code(), jitter) on a fresh System per case; oracle: returned code is the first stop's (either when racing), run() is Ok iff the code is 0, every arbiter alive at the stop can be joined / drops its parked task; non-trivial = an arbiter alive at the stop and the stop not issued before run, or two stops", ctx.tier.scale(4_000, 8))
+            .floors(&[("arbiter-alive-at-stop", 0.5), ("two-stops", 0.3), ("dead-but-registered-arbiter", 0.2), ("stop-from-arbiter", 0.1)])
+            .shrink_iters(300),
+        rt::gen::c09,
+        rt::check_c09,
+    );
+}
+
+pub fn replay_c09(ctx: &Ctx, v: &Value) -> i32 {
+    ctx.replay::<crate::rt::C09Case>(v, crate::rt::check_c09)
+}
+
+pub fn run_c10(ctx: &Ctx) {
+    use crate::rt;
+    ctx.assume("sends are totally ordered by hand-over between the harness and its sender threads, so FIFO and 'nothing sent after stop() returned ever starts' are asserted only where happens-before is established by the harness");
+    ctx.run_corpus::<rt::C10Case>("threads", rt::check_c10);
+    ctx.run_random(
+        Part::new("threads", "command scripts (spawn of tasks that complete / yield / pend forever / panic / send nested commands through Arbiter::current() / hold the arbiter thread while further commands are queued and then send a nested command / stop their own arbiter and then spawn; spawn_fn; sync markers; stop; bursts of 100-280 functions) issued through the owner handle and cloned handles on up to two other threads with hand-over, against a thread arbiter or the system arbiter; oracle on the start log (id, thread, system): strictly increasing ids in start order, no id twice, every start on the arbiter thread with the creating system, everything sent before a sync marker started before it ran, nothing sent after stop() returned ever starts, after join() spawn/stop return false and nothing starts, block_on returns its output; non-trivial = a stop that is not last with commands after it, or >= 2 senders, or a panicking/pending task", ctx.tier.scale(4_000, 8))
+            .floors(&[("senders>=2", 0.4), ("sent-after-stop", 0.25), ("gated", 0.15), ("system-arbiter", 0.1)])
+            .shrink_iters(300),
+        rt::gen::c10,
+        rt::check_c10,
+    );
+}
+
+pub fn replay_c10(ctx: &Ctx, v: &Value) -> i32 {
+    ctx.replay::<crate::rt::C10Case>(v, crate::rt::check_c10)
+}
